@@ -36,6 +36,12 @@ def binop(I, op, a, b):
         if isinstance(a, Vec) and isinstance(b, Vec):
             if len(a) != len(b):
                 raise AnalysisError("Vec length mismatch")
+            # shape abstraction: a Vec is the leading (material) axis; elements that mention an
+            # array symbol carry a trailing wavelength axis.  (M,) * (M, W) does not broadcast
+            # along the material axis unless the first operand is a column (M, 1).
+            wa, wb = wdep(I, a), wdep(I, b)
+            if wa != wb and not (a.col if wb else b.col):
+                raise SymRaise("ValueError", "operands of shape (M,) and (M, W) do not broadcast along the material axis")
             return Vec(binop(I, op, x, y) for x, y in zip(a, b))
         if isinstance(a, Vec):
             return Vec(binop(I, op, x, b) for x in a)
@@ -105,6 +111,15 @@ def binop(I, op, a, b):
     if isinstance(op, ast.BitOr):
         return sp.Or(truth(I, a), truth(I, b))
     raise AnalysisError(f"operator {op.__class__.__name__} not modelled")
+
+
+def wdep(I, v):
+    """Does the value carry a (trailing) array axis, i.e. mention an array symbol?"""
+    if isinstance(v, Vec):
+        return any(wdep(I, x) for x in v)
+    if _alg(v):
+        return any(s in I.arrays for s in to_expr(v).free_symbols)
+    return False
 
 
 def _pyfmt(v):
@@ -309,8 +324,8 @@ def subscript(I, base, key):
     if isinstance(base, Vec):
         if isinstance(key, tuple):
             # weights[:, None] - broadcasting marker, element-wise model keeps the items
-            if all(k is None or k == slice(None, None, None) for k in key):
-                return base
+            if len(key) == 2 and key[0] == slice(None, None, None) and key[1] is None:
+                return Vec(base.items, col=True)
             raise AnalysisError("array index form")
         if isinstance(key, slice):
             return Vec(base.items[key])
@@ -684,6 +699,10 @@ def _math(I, name):
     if name == "sum":
         def npsum(x, axis=None):
             if isinstance(x, Vec):
+                if wdep(I, x) and axis is None:
+                    raise SymRaise("ShapeError", "sum without axis reduces over the wavelength axis as well")
+                if axis is not None and concrete_int(axis) != 0:
+                    raise SymRaise("ShapeError", f"sum over axis {axis} is not the material axis")
                 acc = sp.Integer(0)
                 for e in x:
                     acc = binop(I, ast.Add(), acc, e)
